@@ -21,6 +21,6 @@ PROP["lean_modules"].append("ConduitModel.Props.MonSound")
 
 META = {
     "text": 'Lean 4 theorems for every status vector: the sub-batches the arch-v2 worker hands to the next task are non-empty, contiguous, in index order and cover the batch exactly once (C05_subbatches_partition / _cover / _groups_progress). The executable model of the whole pass (Model/Funnel.lean) is tied to the real funnel.Worker by equality of event logs on generated topologies/scripts, and the C05 monitor (per destination: roots non-decreasing, no record written twice) is evaluated on every implementation trace. v1: every node protocol preserves per-source order for all schedules (C05_v1_*), tied by `pipe` trace acceptance.',
-    "note": 'v1: proved for the product model (C05_v1_node_protocols_preserve_order, _writes_in_read_order, _filtered_absent). v2: loop partition proved; Monitor soundness is PROVED for the model for linear and one-level fan-out trees without record splitting (Props/MonSound: monitor_sound_linear_nosplit, monitor_sound_nosplit_fan1 and their per-clause forms — every clause of the Lean trace monitor is silent on every run of the model, over multi-batch runs, under the decidable hypotheses RootPreserving / NS / sorted roots); for split records and nested fan-out the whole-pass claim rests on event-log equality with the model and on the monitor evaluated on every implementation trace (partial).',
+    "note": 'v1: proved for the product model (C05_v1_node_protocols_preserve_order, _writes_in_read_order, _filtered_absent). v2: loop partition proved; Monitor soundness is PROVED for the model for linear and one-level fan-out trees — the only shapes lifecycle-poc builds (source → processors → fan-out → per-branch processors → destination) — RECORD SPLITTING INCLUDED (Props/MonSound: monitor_sound_linear, monitor_sound_fan1, the no-split forms monitor_sound_linear_nosplit / monitor_sound_nosplit_fan1 and the per-clause forms C01_v2_monitor_sound_*: every clause of the Lean trace monitor is silent on every run of the model, over multi-batch runs, any fuel/window/outcomes, under the decidable run hypotheses RootPreserving / FreshTags / sorted roots); for NESTED fan-out (a shape the engine API allows but the service never builds) the whole-pass claim rests on event-log equality with the model and on the monitor evaluated on every implementation trace (partial).',
     "technique": 'Lean 4 proof of the batch-partition law + model/implementation trace equality + Lean-defined trace monitor',
 }
